@@ -1,14 +1,17 @@
 #!/bin/bash
-# Re-evaluate every kept seeded defect against the current checks (scratch worktrees /tmp/wt-Cxx must exist).
+# Re-evaluate every kept seeded defect (or those named on the command line) against the current checks and the
+# current /repo HEAD.  Each one gets its own scratch worktree under /var/tmp, removed when done (seedeval --from-seeded).
+#   tools/seedsweep.sh [-j N] [C01-2 C07-1 ...]
 cd "$(dirname "$0")/.."
-HEAD=$(git -C /repo rev-parse HEAD)
-for d in seeded/C*-*/; do
-  id=$(basename $d); p=${id%-*}; n=${id#*-}
-  wt=/tmp/wt-$p
-  [ -d $wt ] || git -C /repo worktree add -q --detach $wt $HEAD
-  git -C $wt checkout -q -- xdis 2>/dev/null; git -C $wt checkout -q --detach $HEAD
-  cp $d/patch.diff $wt/change$n.diff; cp $d/demo.py $wt/demo$n.py
+J=1
+if [ "$1" = "-j" ]; then J=$2; shift 2; fi
+ids="$@"
+[ -n "$ids" ] || ids=$(ls -d seeded/C*-*/ | xargs -n1 basename)
+one() {
+  id=$1; p=${id%-*}; n=${id#*-}
   extra=""
-  case $id in C01-2) extra="--checks C01,C10";; C07-1) extra="--checks C07,C01,C10";; C07-2) extra="--checks C07,C05";; esac
-  python3 tools/seedeval.py $p $n $extra 2>&1 | tail -1 | cut -c1-200 | sed "s/^/$id /"
-done
+  case $id in C01-2) extra="--checks C01,C10";; C07-1) extra="--checks C07,C01,C10";; C07-2) extra="--checks C07,C05";; C12-4) extra="--checks C12,C03";; esac
+  python3 tools/seedeval.py $p $n --from-seeded $extra 2>&1 | grep '^{"property"' | cut -c1-200 | sed "s/^/$id /"
+}
+export -f one
+echo $ids | tr ' ' '\n' | xargs -P $J -I{} bash -c 'one {}'
